@@ -79,7 +79,9 @@ fn on_kick(r: Receiver<Kick>, s: Sender<(Big, Noise)>) {
     let name: &str = name;
     s.send(Noise(k.tag));
     s.send(Big { depth: k.depth, fanout: k.fanout, tag: k.tag, data, name });
-    s.send(Noise(k.tag + 1));
+    if k.tag % 3 != 0 {
+        s.send(Noise(k.tag + 1));
+    }
 }
 fn on_big_forward(r: Receiver<Big>, s: Sender<(Big, Noise, BigT)>, f: Fetcher<EntityId>) {
     let b = r.event;
@@ -109,8 +111,14 @@ fn on_despawn(r: Receiver<Despawn, EntityId>, s: Sender<(Big, Noise)>) {
     let tag = base + (r.query.index().0 as u64 % 5);
     let data = s.alloc_slice(300 + (tag % 7) as usize * 100, |i| pattern(tag, i));
     let name = s.alloc_str(&label(tag));
-    s.send(Big { depth: 1, fanout: 2, tag, data, name });
-    s.send(Noise(tag));
+    // the payload-carrying event is sometimes the last thing sent (the last pending descendant of this root)
+    if tag % 2 == 0 {
+        s.send(Big { depth: 1, fanout: 2, tag, data, name });
+        s.send(Noise(tag));
+    } else {
+        s.send(Noise(tag));
+        s.send(Big { depth: (tag % 3) as u32, fanout: 1, tag, data, name });
+    }
 }
 fn on_big_second(r: Receiver<Big>) {
     verify("second receiver", r.event.tag, r.event.data, Some(r.event.name));
